@@ -331,15 +331,6 @@ end
 
 /-! ## depth bookkeeping -/
 
-theorem maxDepth_go_ge : ∀ (cs : List Schema) (c : Schema), c ∈ cs → c.maxDepth ≤ Schema.maxDepth.go cs
-  | [], _, h => by simp at h
-  | c0 :: cs, c, h => by
-    simp only [List.mem_cons] at h
-    simp only [Schema.maxDepth.go]
-    rcases h with rfl | h
-    · omega
-    · have := maxDepth_go_ge cs c h; omega
-
 theorem kid_maxDepth (t c : Schema) (i : Nat) (h : t.kids[i]? = some c) : c.maxDepth + 1 ≤ t.maxDepth := by
   cases t with
   | leaf => simp [Schema.kids] at h
@@ -478,16 +469,6 @@ theorem take_append_replicate {α : Type} (a : α) : ∀ (xs : List α) (n m : N
   | x :: xs, k + 1, m, h => by
     simp only [List.cons_append, List.take_succ_cons]
     rw [take_append_replicate a xs k m (by omega), take_append_replicate a xs k (k + 1) (by omega)]
-
-theorem mem_leaves_go : ∀ (cs : List Schema) (k : Nat) (p : List Nat), p ∈ Schema.leaves.go cs k →
-    ∃ i c rest, cs[i]? = some c ∧ p = (k + i) :: rest ∧ rest ∈ c.leaves
-  | [], _, _, h => by simp [Schema.leaves.go] at h
-  | c :: cs, k, p, h => by
-    simp only [Schema.leaves.go, List.mem_append, List.mem_map] at h
-    rcases h with ⟨rest, hr, rfl⟩ | h
-    · exact ⟨0, c, rest, by simp, by simp, hr⟩
-    · obtain ⟨i, c', rest, h1, h2, h3⟩ := mem_leaves_go cs (k + 1) p h
-      exact ⟨i + 1, c', rest, by simpa using h1, by rw [h2]; congr 1; omega, h3⟩
 
 theorem mem_leaves_at? : ∀ (p : List Nat) (s : Schema), p ∈ s.leaves → s.at? p = some .leaf := by
   intro p
